@@ -12,8 +12,8 @@ Open Scope R_scope.
 Theorem C18_eval_matches_leaves_leaky : forall A (O : NumOps A) m g ic y,
   eval O (en1 [y; m; g; ic]) (leaky_inv_t (Var 1) (Var 2) (Var 3) (Var 0)) = leaky_inv O m g ic y /\
   eval O (en1 [y; m; g; ic]) (leaky_fwd_t (Var 1) (Var 2) (Var 3) (Var 0)) = leaky_fwd O m g ic y /\
-  eval O (en1 [y; m; g; ic]) (leaky_ld_fwd_t (Var 1) (Var 2) (Var 0)) = leaky_ld_fwd O m g y /\
-  eval O (en1 [y; m; g; ic]) (leaky_ld_inv_t (Var 1) (Var 2) (Var 3) (Var 0)) = leaky_ld_inv O m g ic y.
+  eval O (en1 [y; m; g; ic]) (leaky_ld_fwd_t 4 (Var 1) (Var 2) (Var 0)) = leaky_ld_fwd O m g y /\
+  eval O (en1 [y; m; g; ic]) (leaky_ld_inv_t 4 (Var 1) (Var 2) (Var 3) (Var 0)) = leaky_ld_inv O m g ic y.
 Proof. exact @ev_leaky_all. Qed.
 Print Assumptions C18_eval_matches_leaves_leaky.
 
@@ -29,14 +29,14 @@ Proof. exact @ev_rqs_all. Qed.
 Print Assumptions C18_eval_matches_leaves_rqs.
 
 Theorem C18_eval_matches_leaves_other : forall A (O : NumOps A) loc scale x,
-  eval O (en1 [x]) (tanh_log_grad_t (Var 0)) = tanh_log_grad O x /\
+  eval O (en1 [x]) (tanh_log_grad_t 1 (Var 0)) = tanh_log_grad O x /\
   eval O (en1 [x]) (softplus_inv_t (Var 0)) = softplus_inv O x /\
-  eval O (en1 [x]) (softplus_ld_inv_t (Var 0)) = softplus_ld_inv O x /\
+  eval O (en1 [x]) (softplus_ld_inv_t 1 (Var 0)) = softplus_ld_inv O x /\
   eval O (en1 [x]) (softplus_ld_fwd_t (Var 0)) = softplus_ld_fwd O x /\
   eval O (en1 [x]) (exp_inv_t (Var 0)) = exp_inv O x /\
-  eval O (en1 [x]) (exp_ld_inv_t (Var 0)) = exp_ld_inv O x /\
+  eval O (en1 [x]) (exp_ld_inv_t 1 (Var 0)) = exp_ld_inv O x /\
   eval O (en1 [x]) (tanh_inv_t (Var 0)) = tanh_inv O x /\
-  eval O (en1 [x]) (tanh_ld_inv_t (Var 0)) = tanh_ld_inv O x /\
+  eval O (en1 [x]) (tanh_ld_inv_t 1 (Var 0)) = tanh_ld_inv O x /\
   eval O (en1 [x; loc; scale]) (affine_fwd_t (Var 1) (Var 2) (Var 0)) = affine_fwd O loc scale x /\
   eval O (en1 [x; loc; scale]) (affine_inv_t (Var 1) (Var 2) (Var 0)) = affine_inv O loc scale x /\
   eval O (en1 [x; loc; scale]) (affine_ld_t (Var 2)) = affine_ld O scale.
@@ -68,17 +68,17 @@ Print Assumptions C18_where_pitfall_refuted.
 Theorem C18_leaky_safe : forall m g ic x, 0 < g ->
   Safe (en_of [x; m; g; ic]) (leaky_inv_t (Var 1) (Var 2) (Var 3) (Var 0)) /\
   Safe (en_of [x; m; g; ic]) (leaky_fwd_t (Var 1) (Var 2) (Var 3) (Var 0)) /\
-  Safe (en_of [x; m; g; ic]) (leaky_ld_fwd_t (Var 1) (Var 2) (Var 0)) /\
-  Safe (en_of [x; m; g; ic]) (leaky_ld_inv_t (Var 1) (Var 2) (Var 3) (Var 0)).
+  Safe (en_of [x; m; g; ic]) (leaky_ld_fwd_t 4 (Var 1) (Var 2) (Var 0)) /\
+  Safe (en_of [x; m; g; ic]) (leaky_ld_inv_t 4 (Var 1) (Var 2) (Var 3) (Var 0)).
 Proof. exact leaky_safe_all. Qed.
 Print Assumptions C18_leaky_safe.
 
 (* _tanh_log_grad everywhere; SoftPlus.inverse / Exp.inverse on y > 0; Tanh.inverse inside (-1,1); Affine with scale <> 0 *)
 Theorem C18_elementary_safe : forall loc scale y,
-  Safe (en_of [y]) (tanh_log_grad_t (Var 0)) /\
-  (0 < y -> Safe (en_of [y]) (softplus_inv_t (Var 0)) /\ Safe (en_of [y]) (softplus_ld_inv_t (Var 0)) /\
-            Safe (en_of [y]) (exp_inv_t (Var 0)) /\ Safe (en_of [y]) (exp_ld_inv_t (Var 0))) /\
-  (-1 < y < 1 -> Safe (en_of [y]) (tanh_inv_t (Var 0)) /\ Safe (en_of [y]) (tanh_ld_inv_t (Var 0))) /\
+  Safe (en_of [y]) (tanh_log_grad_t 1 (Var 0)) /\
+  (0 < y -> Safe (en_of [y]) (softplus_inv_t (Var 0)) /\ Safe (en_of [y]) (softplus_ld_inv_t 1 (Var 0)) /\
+            Safe (en_of [y]) (exp_inv_t (Var 0)) /\ Safe (en_of [y]) (exp_ld_inv_t 1 (Var 0))) /\
+  (-1 < y < 1 -> Safe (en_of [y]) (tanh_inv_t (Var 0)) /\ Safe (en_of [y]) (tanh_ld_inv_t 1 (Var 0))) /\
   (scale <> 0 -> Safe (en_of [y; loc; scale]) (affine_inv_t (Var 1) (Var 2) (Var 0)) /\
                  Safe (en_of [y; loc; scale]) (affine_ld_t (Var 2))).
 Proof. exact elementary_safe_all. Qed.
